@@ -4,6 +4,14 @@ package props
 
 import (
 	"bytes"
+	"encoding/json"
+	"fmt"
+	"os"
+	"sync"
+
+	"github.com/uhn/ggql/pkg/vsync"
+
+	"verif/mc/sched"
 	"os/exec"
 	"path/filepath"
 	"regexp"
@@ -70,4 +78,66 @@ func errString(err error) string {
 		return ""
 	}
 	return err.Error()
+}
+
+// ---- happens-before race checking on every explored schedule (memory-access overlay, DESIGN 10.8) ----
+
+type memSite struct {
+	ID    int    `json:"id"`
+	File  string `json:"file"`
+	Line  int    `json:"line"`
+	Expr  string `json:"expr"`
+	Field string `json:"field"`
+	Write bool   `json:"write"`
+}
+
+var (
+	memSitesOnce sync.Once
+	memSites     []memSite
+)
+
+func siteOf(i int) memSite {
+	memSitesOnce.Do(func() {
+		b, err := os.ReadFile(filepath.Join(verifDirProps(), "build", "sites.json"))
+		if err == nil {
+			_ = json.Unmarshal(b, &memSites)
+		}
+	})
+	if i >= 0 && i < len(memSites) {
+		return memSites[i]
+	}
+	return memSite{ID: i, Field: "?", File: "?"}
+}
+
+// memTrackOn switches the scheduler's vector-clock race checker on when the harness was built over the
+// memory-access overlay; otherwise it records the cap and leaves the data-race conjunct to the sampling pass.
+func memTrackOn(c *core.Ctx) bool {
+	if !vsync.MemOverlay {
+		sched.MemTrack = false
+		c.Cap("memory-access overlay not built for this tree (see build/vcheck_mem.err): happens-before race checking of the explored schedules was not done; the free-running race pass still ran")
+		return false
+	}
+	sched.MemTrack = true
+	return true
+}
+
+// reportRaces turns the races of one execution into violations keyed by the field and the two source sites.
+func reportRaces(c *core.Ctx, res *sched.Result, attrs map[string]string, detail func() map[string]interface{}) {
+	c.CountN("mem_accesses", int64(res.Accesses))
+	c.CountN("mem_shared_addresses", int64(res.SharedAddrs))
+	for _, r := range res.Races {
+		a, b := siteOf(r.PrevSite), siteOf(r.Site)
+		at := map[string]string{"field": b.Field, "sites": fmt.Sprintf("%s:%d ~ %s:%d", a.File, a.Line, b.File, b.Line)}
+		for k, v := range attrs {
+			at[k] = v
+		}
+		d := detail()
+		d["race"] = map[string]interface{}{
+			"previous": map[string]interface{}{"thread": r.PrevThread, "write": r.PrevWrite, "site": a},
+			"current":  map[string]interface{}{"thread": r.Thread, "write": r.Write, "site": b},
+			"why":      "two accesses to the same address from different threads, at least one a write, not ordered by any mutex release->acquire chain in this schedule",
+		}
+		c.Outcome("data-race")
+		c.Violation("data-race", at, d)
+	}
 }
